@@ -6,7 +6,11 @@
 //! the plane whether coverage agrees with the fill rule outside the tolerance band.
 //! The in-harness oracle checks termination/no panic, index validity and finiteness.
 
-use lyon_tessellation::FillTessellator;
+use lyon_path::math::Point;
+use lyon_path::Polygon;
+use lyon_tessellation::{
+    FillGeometryBuilder, FillTessellator, FillVertex, GeometryBuilder, GeometryBuilderError, VerifEdgeRecord, VertexId,
+};
 use vh::fillgen::*;
 use vh::{CaseOut, Ctx, Oracle, Out};
 
@@ -82,11 +86,259 @@ fn fill_case(ctx: &mut Ctx, max_edges: usize) {
     });
 }
 
+// ---------------------------------------------------------------------------------------------
+// Family `sweep:32`: the sweep-line tessellator itself against its Lean model
+// (`lean/LyonVerif/Model/Tess/Sweep.lean`).  IMPL is the COMPLETE output of the real
+// `FillTessellator` as its geometry builder sees it, in call order: every `add_fill_vertex`
+// (output position + the sibling edge records of the event, hook H1) and every `add_triangle`,
+// preceded by `ok` / `err <Debug of the error>` (what was emitted before an error is kept).
+
+enum Emit {
+    V(Point, Vec<VerifEdgeRecord>),
+    T(u32, u32, u32),
+}
+
+#[derive(Default)]
+struct SweepLog {
+    ems: Vec<Emit>,
+    nv: u32,
+}
+
+impl GeometryBuilder for SweepLog {
+    fn add_triangle(&mut self, a: VertexId, b: VertexId, c: VertexId) {
+        self.ems.push(Emit::T(a.0, b.0, c.0));
+    }
+    // abort_geometry: keep what was emitted (the model predicts it as well)
+}
+
+impl FillGeometryBuilder for SweepLog {
+    fn add_fill_vertex(&mut self, v: FillVertex) -> Result<VertexId, GeometryBuilderError> {
+        self.ems.push(Emit::V(v.position(), v.verif_sibling_records()));
+        self.nv += 1;
+        Ok(VertexId(self.nv - 1))
+    }
+}
+
+/// the five entry points on a polygonal input, into the logging builder
+fn run_fill_log(tess: &mut FillTessellator, poly: &Poly, cfg: &FillCfg, handle_ix: bool, log: &mut SweepLog) -> Result<(), String> {
+    let opts = cfg.options().with_intersections(handle_ix);
+    let path = poly.to_path();
+    let r = match cfg.entry {
+        0 => tess.tessellate(path.iter(), &opts, log),
+        1 => tess.tessellate_path(&path, &opts, log),
+        2 => tess.tessellate_with_ids(path.id_iter(), &path, None, &opts, log),
+        3 if poly.subs.len() == 1 && !poly.subs[0].0.is_empty() => {
+            let (pts, closed) = &poly.subs[0];
+            tess.tessellate_polygon(Polygon { points: &pts[..], closed: *closed }, &opts, log)
+        }
+        3 => tess.tessellate(path.iter(), &opts, log),
+        _ => {
+            use lyon_path::builder::PathBuilder;
+            let mut b = tess.builder(&opts, log);
+            for (pts, closed) in &poly.subs {
+                if pts.is_empty() {
+                    continue;
+                }
+                b.begin(pts[0]);
+                for p in &pts[1..] {
+                    b.line_to(*p);
+                }
+                b.end(*closed);
+            }
+            b.build()
+        }
+    };
+    r.map_err(|e| format!("{:?}", e))
+}
+
+/// Inputs aimed at the rarely taken branches of the sweep (flipped intersections, the
+/// `next_after` fix-up, snapping, coincident edges, merge vertices during error recovery).
+fn gen_sweep_stress(rng: &mut vh::Rng) -> Poly {
+    use lyon_path::math::point;
+    match rng.below(6) {
+        0 => {
+            // near-level: wide in x, ordinates a few ulps apart -> crossings of almost horizontal edges
+            let n = rng.range(4, 9) as usize;
+            let base = *rng.pick(&[0.0f32, 1.0, 100.0, 1000.0, 4096.0]);
+            let ulp = (base.max(1.0e-3)) * f32::EPSILON;
+            let pts = (0..n)
+                .map(|_| point(rng.uniform(-50.0, 50.0) as f32, base + rng.range(-6, 6) as f32 * ulp * *rng.pick(&[1.0f32, 1.0, 8.0, 1000.0])))
+                .collect();
+            Poly { subs: vec![(pts, true)], kind: "near-level" }
+        }
+        1 => {
+            // large fractional coordinates: intersection points round coarsely
+            let n = rng.range(4, 9) as usize;
+            let s = *rng.pick(&[1.0e3f64, 1.0e4, 1.0e5]);
+            let pts = (0..n).map(|_| point(rng.uniform(-s, s) as f32, rng.uniform(-s, s) as f32)).collect();
+            Poly { subs: vec![(pts, true)], kind: "big-coords" }
+        }
+        2 => {
+            // several overlapping random triangles / quads: many crossings and merge vertices
+            let k = rng.range(2, 5) as usize;
+            let mut subs = Vec::new();
+            for _ in 0..k {
+                let n = rng.range(3, 4) as usize;
+                subs.push(((0..n).map(|_| point(rng.uniform(0.0, 10.0) as f32, rng.uniform(0.0, 10.0) as f32)).collect(), true));
+            }
+            Poly { subs, kind: "overlap-many" }
+        }
+        3 => {
+            // fans of almost equal slopes from a shared apex, ends at different heights
+            let apex = point(rng.uniform(-1.0, 1.0) as f32, 0.0);
+            let k = rng.range(2, 4) as usize;
+            let dir = rng.uniform(-2.0, 2.0);
+            let mut subs = Vec::new();
+            for _ in 0..k {
+                let len = rng.uniform(2.0, 10.0);
+                let d = dir + rng.uniform(-1.0, 1.0) * *rng.pick(&[1.0e-3f64, 1.0e-4, 3.0e-5, 1.0e-6, 0.0]);
+                let far = if rng.chance(1, 4) {
+                    // almost horizontal fan: slope through the inverse branch of the angle test
+                    point(apex.x + len as f32, (len * 1.0e-3 * d) as f32)
+                } else {
+                    point(apex.x + (d * len) as f32, len as f32)
+                };
+                let third = point(far.x + rng.uniform(-3.0, 3.0) as f32, far.y + rng.uniform(-1.0, 3.0) as f32);
+                subs.push((vec![apex, far, third], true));
+            }
+            Poly { subs, kind: "near-coincident" }
+        }
+        4 => {
+            // comb: many merge and split vertices, then a bar across (merge vertices + crossings)
+            let teeth = rng.range(2, 4) as usize;
+            let mut pts = vec![point(0.0, 0.0)];
+            let up = rng.chance(1, 2);
+            for i in 0..teeth {
+                let x = i as f32 * 2.0;
+                let h = rng.uniform(2.0, 6.0) as f32;
+                pts.push(point(x + 0.5 + rng.uniform(-0.3, 0.3) as f32, if up { -h } else { h }));
+                pts.push(point(x + 2.0, rng.uniform(-0.5, 0.5) as f32));
+            }
+            pts.push(point(teeth as f32 * 2.0, if up { 3.0 } else { -3.0 }));
+            pts.push(point(0.0, if up { 3.0 } else { -3.0 }));
+            let y = rng.uniform(-5.0, 5.0) as f32;
+            let bar = vec![
+                point(-1.0, y),
+                point(teeth as f32 * 2.0 + 1.0, y + rng.uniform(-1.0, 1.0) as f32),
+                point(teeth as f32 + rng.uniform(-2.0, 2.0) as f32, y + rng.uniform(0.5, 2.0) as f32),
+            ];
+            let mut p = Poly { subs: vec![(pts, true), (bar, true)], kind: "comb" };
+            if rng.chance(1, 2) {
+                p.transform(|q| point(q.y, q.x));
+            }
+            p
+        }
+        _ => {
+            // lattice zig-zags sharing many vertices and collinear overlapping edges
+            let k = rng.range(2, 3) as usize;
+            let mut subs = Vec::new();
+            for _ in 0..k {
+                let n = rng.range(4, 7) as usize;
+                subs.push(((0..n).map(|_| point(rng.range(0, 4) as f32, rng.range(0, 4) as f32)).collect(), true));
+            }
+            Poly { subs, kind: "small-lattice" }
+        }
+    }
+}
+
+fn sweep_case(ctx: &mut Ctx, max_edges: usize) {
+    ctx.case("sweep:32", |rng| {
+        let poly = if rng.chance(1, 3) {
+            gen_sweep_stress(rng)
+        } else if rng.chance(1, 8) {
+            let n_mid = rng.range(3, 14) as usize;
+            let lattice = rng.chance(1, 4);
+            let seq = gen_monotone(rng, n_mid, None, lattice);
+            Poly { subs: vec![(monotone_outline(&seq), true)], kind: "monotone" }
+        } else {
+            gen_poly(rng, max_edges)
+        };
+        let cfg = FillCfg::gen(rng);
+        // one case in eight (one in three of the stress inputs) runs with `handle_intersections = false`
+        // (the error-recovery paths)
+        let stress = matches!(poly.kind, "near-level" | "big-coords" | "overlap-many" | "near-coincident" | "comb" | "small-lattice");
+        let handle_ix = if stress { !rng.chance(1, 3) } else { !rng.chance(1, 8) };
+        let mut args = Out::new();
+        cfg.put(&mut args);
+        args.b(handle_ix);
+        args.u(poly.subs.len() as u64);
+        for (pts, closed) in &poly.subs {
+            args.u(pts.len() as u64).b(*closed);
+            for p in pts {
+                args.p(*p);
+            }
+        }
+        let tag = format!(
+            "sweep {} {} {} n={}",
+            poly.kind,
+            ENTRY_NAMES[cfg.entry],
+            if handle_ix { "ix" } else { "noix" },
+            poly.num_edges().min(30)
+        );
+        (args, tag, move || {
+            let mut tess = FillTessellator::new();
+            let mut log = SweepLog::default();
+            let res = vh::guarded(|| run_fill_log(&mut tess, &poly, &cfg, handle_ix, &mut log));
+            let mut o = Out::new();
+            let mut orc = Oracle::new();
+            let res = match res {
+                Some(r) => r,
+                None => {
+                    // a panic is a modelled outcome (overflow / index / assert branches of the model).
+                    // With `handle_intersections = false` on an input that does intersect the caller broke
+                    // the option's precondition: recorded, not a finding. Otherwise it is one.
+                    o.t("panic");
+                    if handle_ix {
+                        orc.check(false, "sweep/no-panic", "generic", || "FillTessellator panicked on finite polygonal input".into());
+                    } else {
+                        orc.skip("noix-precondition-violated");
+                    }
+                    return CaseOut { imp: o, orcl: orc.verdict };
+                }
+            };
+            match &res {
+                Ok(()) => {
+                    o.t("ok");
+                }
+                Err(e) => {
+                    o.t("err").t(&e.replace(' ', "_"));
+                }
+            }
+            let mut nv = 0u32;
+            for e in &log.ems {
+                match e {
+                    Emit::V(p, recs) => {
+                        nv += 1;
+                        o.t("v").p(*p).u(recs.len() as u64);
+                        for r in recs {
+                            o.t(if r.is_edge { "e" } else { "p" }).p(r.position);
+                            if r.is_edge {
+                                o.p(r.to);
+                            }
+                            o.f(r.range.start).f(r.range.end).i(r.winding as i64).u(r.from_id.0 as u64).u(r.to_id.0 as u64);
+                        }
+                    }
+                    Emit::T(a, b, c) => {
+                        o.t("t").u(*a as u64).u(*b as u64).u(*c as u64);
+                        orc.check(*a < nv && *b < nv && *c < nv, "sweep/index-valid", "generic", || "triangle uses a vertex not yet emitted".into());
+                    }
+                }
+            }
+            CaseOut { imp: o, orcl: orc.verdict }
+        })
+    });
+}
+
 fn main() {
     let mut ctx = Ctx::from_args("C01");
     let n = ctx.n(4000, 100000);
     for _ in 0..n {
         fill_case(&mut ctx, 24);
+    }
+    // the sweep model tie (ids after the chk_fill cases, so those keep their ids)
+    let n = ctx.n(1500, 50000);
+    for _ in 0..n {
+        sweep_case(&mut ctx, 24);
     }
     ctx.finish();
 }
